@@ -611,6 +611,12 @@ impl<'s, M: Matcher, S: Sink> Core<'s, M, S> {
         if self.config.stop_on_nonmatch && self.has_matched {
             return false;
         }
+        // The inverted fast path finds the next non-inverted match and moves
+        // past it, so it can never observe the line on which the search is
+        // supposed to stop.
+        if self.config.stop_on_nonmatch && self.config.invert_match {
+            return false;
+        }
         if let Some(line_term) = self.matcher.line_terminator() {
             // FIXME: This works around a bug in grep-regex where it does
             // not set the line terminator of the regex itself, and thus
